@@ -27,6 +27,9 @@ FAMILIES = [
     ['ae'],
     ['fo o'],
     ['naïve café', 'NAÏVE CAFÉ'],
+    # equal only under a Unicode normalisation form (NFKC / NFC), which label matching does not apply: each is a family of its own
+    ['\uff46\uff4f\uff4f', '\uff26\uff2f\uff2f'], ['e\u0301t', 'E\u0301T'], ['\u00e9t', '\u00c9T'], ['x\u00b2'], ['x2', 'X2'], ['\u2163', '\u2173'], ['iv', 'IV', 'Iv'],
+    ['a\u0308'],
 ]
 BREAKABLE = {'foo bar': 'foo\nbar', 'label 7': 'Label\n7', 'naïve café': 'Naïve\ncafé'}
 
